@@ -611,7 +611,7 @@ def _simple_functor(sh):
     def f(x):
         if x is None:
             return None
-        if not isinstance(x, (tuple, list)):
+        if not (isinstance(x, (tuple, list)) and len(x) >= 3 and isinstance(x[0], int) and isinstance(x[2], (int, float))):
             # a piece of a data item (the item was a list and has been taken apart): f answers, the oracle sees a result that
             # is f(x) of no input
             sh.log("item_torn")
